@@ -131,6 +131,7 @@ def make_tasks(tier, only=None):
 
 
 DEVICE = None
+WATCHDOGS = [0]  # engine runs that hit the watchdog in this worker; exploration stops after 25 (the run already fails)
 
 
 def run_variants(image, answers, r, FAR, tier, sieve, counters):
@@ -147,6 +148,8 @@ def run_variants(image, answers, r, FAR, tier, sieve, counters):
             if o.storage not in ('flat', 'hybrid', 'paged'):
                 sieve.add({'kind': 'storage-mode-string', 'case': {'image': image.to_json(), 'answers': answers, 'variant': name},
                            'expected': 'flat|hybrid|paged', 'observed': o.storage})
+        if o.exc == 'Watchdog':
+            WATCHDOGS[0] += 1
         diffs = compare(r, o, ring, image.w)
         if diffs:
             sieve.add({
@@ -183,6 +186,9 @@ def work(task):
             data = dict(fixed)
             data.update(zip(pos, (v & ((1 << w) - 1) for v in vals)))
             image = R1.Image(w, segs, data)
+            if WATCHDOGS[0] > 25:
+                counters['aborted_after_watchdogs'] = 1
+                break
             counters['images'] += 1
             for answers, r in answer_scripts(image, 1, H):
                 if r.cause == R1.HORIZON:
